@@ -8,7 +8,9 @@
                              accept_connection, PeerContext::force_down, apply_disconnect + tail of
                              PeerSession::run
     daemon/src/event/peer.rs PeerParams::{build_local_cap, apply_peer_group, build}
-    daemon/src/event/grpc.rs enable/disable/delete/shutdown/reset handlers
+    daemon/src/event/grpc.rs enable/disable/delete/shutdown/reset handlers; the validation in
+                             `PeerParams::try_from(&api::Peer)` (AddPeer) and the prefix admission of
+                             AddDynamicNeighbor (`IpNet::from_str`, duplicate refusal)
 
   Hash maps are association lists sorted by key (DESIGN §3); a Rust panic
   (index out of range, unwrap) is the explicit outcome `Out.panic`.
@@ -698,6 +700,10 @@ structure GlobalCfg where
 structure PeerCase where
   params : Params
   group : Option String
+  /-- the neighbour is added with the AddPeer request (`PeerParams::try_from(&api::Peer)`, then the
+      handler's `apply_peer_group` and `Global::add_peer`) instead of the configuration sequence.
+      In the request `hold` is the `hold_time` field (0 = not set) and a send-max of 0 means "no add-path send". -/
+  api : Bool := false
   deriving Repr, DecidableEq
 
 /-- `HashMap::insert` of the groups by name: a later group with the same name replaces the earlier
@@ -706,6 +712,46 @@ def normGroups (gs : List Group) : List Group :=
   gs.foldl (fun acc g => (acc.filter fun x => x.name != g.name) ++ [g]) []
 
 def findGroup (gs : List Group) (n : String) : Option Group := gs.find? fun g => g.name = n
+
+/-! ### loading: dynamic prefixes (AddDynamicNeighbor), API neighbours (AddPeer) -/
+
+/-- `IpNet::from_str`: a prefix length up to the address length (32 / 128) is admitted -/
+def Net.wf (n : Net) : Bool := n.mask ≤ 8 * n.bytes.length
+
+/-- the AddDynamicNeighbor requests of one group, in order: refused when the prefix does not parse or
+    the group already has exactly this prefix (`seen` = what the group has so far) -/
+def netsAdded : List Net → List Net → List Bool
+  | [], _ => []
+  | n :: t, seen =>
+      let ok := n.wf && !seen.contains n
+      ok :: netsAdded t (if ok then seen ++ [n] else seen)
+
+/-- the group as the daemon holds it afterwards (a repeated prefix changes nothing for containment) -/
+def loadGroup (g : Group) : Group := { g with nets := g.nets.filter Net.wf }
+
+/-- RFC 4271 §4.2 as `try_from` enforces it on `hold_time`: not set, or 3..65535 -/
+def apiHoldOk (h : Nat) : Bool := h = 0 || (3 ≤ h && h ≤ 65535)
+
+/-- `PeerParams::try_from(&api::Peer)`: `none` = the request is refused (no expected AS and no group;
+    a send-max above the limit; a hold time of 1, 2 or above 65535); otherwise the parameters it
+    yields (hold time 0 = default, a send-max of 0 is no entry). -/
+def apiPre (pc : PeerCase) : Option PeerCase :=
+  if !pc.api then some pc
+  else if pc.params.expected = 0 && pc.group.isNone then none
+  else if pc.params.sm.any (fun e => e.2 > 255) then none      -- peer::ADDPATH_SEND_MAX_LIMIT
+  else if !apiHoldOk pc.params.hold then none
+  else some { pc with
+    api := false
+    params := { pc.params with
+      hold := if pc.params.hold = 0 then DEFAULT_HOLD_TIME else pc.params.hold
+      sm := pc.params.sm.filter fun e => e.2 > 0 } }
+
+/-- the `added` flags of all neighbours from those of the neighbours that got as far as `add_peer` -/
+def mergeAdded : List (Option PeerCase) → List Bool → List Bool
+  | [], _ => []
+  | none :: t, fl => false :: mergeAdded t fl
+  | some _ :: t, f :: fl => f :: mergeAdded t fl
+  | some _ :: t, [] => false :: mergeAdded t []
 
 /-- configuration loading, first half: `apply_peer_group` when the named group exists -/
 def resolveParams (groups : List Group) (pc : PeerCase) : Params :=
@@ -731,8 +777,16 @@ structure SetupRow where
 def setupRowOf (confed : Option (Nat × List Nat)) (e : Ip × Peer) : SetupRow :=
   { addr := e.1, adminDown := e.2.adminDown, cfg := e.2.cfg, role := peerRole e.2.cfg confed }
 
+/-- a history on a loaded configuration -/
+structure HistCore where
+  added : List Bool
+  setup : List SetupRow
+  steps : List StepObs
+  deriving Repr, DecidableEq
+
 structure HistObs where
   added : List Bool
+  netsAdded : List (List Bool)      -- per group, per configured prefix: admitted?
   setup : List SetupRow
   steps : List StepObs
   deriving Repr, DecidableEq
@@ -741,11 +795,19 @@ def initSt (g : GlobalCfg) (groups : List Group) : St :=
   { asn := g.asn, rid := g.rid, confed := g.confed, groups := groups
     peers := [], ctxs := [], live := [], nextSid := 0 }
 
-def runHist (g : GlobalCfg) (groups : List Group) (peers : List PeerCase) (ops : List Op) : Out HistObs := do
+def runHistOn (g : GlobalCfg) (groups : List Group) (peers : List PeerCase) (ops : List Op) : Out HistCore := do
   let (st, added) := setupPeers (initSt g groups) peers
   let setup := sortBy (·.addr) (st.peers.map (setupRowOf st.confed))
   let steps ← runOps st ops
   pure { added := added, setup := setup, steps := steps }
+
+/-- a case: the dynamic prefixes are admitted one by one, the API neighbours pass `try_from`, then the
+    history runs on what was loaded -/
+def runHist (g : GlobalCfg) (groups : List Group) (peers : List PeerCase) (ops : List Op) : Out HistObs := do
+  let pre := peers.map apiPre
+  let core ← runHistOn g (groups.map loadGroup) (pre.filterMap id) ops
+  pure { added := mergeAdded pre core.added, netsAdded := groups.map (fun gr => netsAdded gr.nets [])
+         setup := core.setup, steps := core.steps }
 
 /-! ## Cases and observations -/
 
